@@ -21,14 +21,16 @@ AsksWithinCL(ev, i, got, lim) ==
   i > Len(ev) \/ (ev[i][1] <= lim - got /\ AsksWithinCL(ev, i + 1, got + ev[i][2], lim))
 RECURSIVE GotTotal(_, _)
 GotTotal(ev, i) == IF i > Len(ev) THEN 0 ELSE ev[i][2] + GotTotal(ev, i + 1)
-PropFails(t) ==
+PropFails0(t) ==
   LET n == Min2(Max2(t.cl, 0), Len(t.inp))
       ref == IF t.mode = "chunked" THEN RefDecode(t.inp) ELSE [st |-> "na"]
       size == IF t.mode = "cl" THEN n ELSE IF ref.st = "ok" THEN Len(ref.pay) ELSE -1
   IN
   (IF t.mode = "cl" /\ t.phase = "done" /\ t.out # SubSeq(t.inp, 1, n) THEN {"ClExact"} ELSE {})
   \cup (IF t.mode = "cl" /\ ~AsksWithinCL(t.ev, 1, 0, Max2(t.cl, 0)) THEN {"ClNoOverRead"} ELSE {})
-  \cup (IF t.phase \notin {"done", "e400", "e413"} THEN {"Outcome"} ELSE {})
+  \* with an injected fault (no temporary file can be created) the request may fail as a server error; what it may not do is
+  \* succeed with a body above the threshold held in memory (clause Spooling below)
+  \cup (IF t.phase \notin {"done", "e400", "e413"} /\ ~(t.fault /\ t.phase = "status500") THEN {"Outcome"} ELSE {})
   \cup (IF t.mode = "cl" /\ t.phase = "e400" THEN {"ClOutcome"} ELSE {})
   \cup (IF t.mode = "chunked" /\ t.kind = "legal" /\ ref.st # "ok" THEN {"GeneratorNotLegal"} ELSE {})
   \cup (IF t.mode = "chunked" /\ t.kind = "legal" /\ t.maxBody < 0 /\ ~(t.phase = "done" /\ t.out = t.expect)
@@ -47,6 +49,9 @@ PropFails(t) ==
   \cup (IF t.phase = "done" /\ (t.spooled # (Len(t.out) > t.buf)) THEN {"Spooling"} ELSE {})
   \* every presentation of the body (request.body again; a peek, then a full read) is the same bytes
   \cup (IF t.phase = "done" /\ t.reread = "differs" THEN {"Presentations"} ELSE {})
+
+\* a request served under an injected fault may end as a server error and is then not judged further
+PropFails(t) == IF t.fault /\ t.phase = "status500" THEN {} ELSE PropFails0(t)
 
 TInit == /\ tid \in 1..Len(Traces)
          /\ l = 1
